@@ -1242,6 +1242,161 @@ theorem dumps_autoType (a : AutoType) (stk : List String) (off : Nat) (ords : Or
   exact Dumps.emit_stop "AutoType" stk _ ords
 
 
+/-! ### colours -/
+
+def hexD (k : Nat) : Char := if k < 10 then Char.ofNat (48 + k) else Char.ofNat (87 + k)
+
+theorem hex2_eq (n : Nat) : hex2 n = String.ofList [hexD (n / 16 % 16), hexD (n % 16)] := rfl
+
+theorem colorText_toList (c : Color) :
+    (colorText c).toList = ['#', hexD (c.r / 16 % 16), hexD (c.r % 16), hexD (c.g / 16 % 16), hexD (c.g % 16),
+      hexD (c.b / 16 % 16), hexD (c.b % 16)] := by
+  simp [colorText, hex2_eq, String.toList_append]
+
+theorem hexVal_hexD : ∀ k, k < 16 → hexVal (hexD k) = some k := by decide
+
+theorem hexD_ascii : ∀ k, k < 16 → (hexD k).utf8Size = 1 := by decide
+
+theorem colorText_size (c : Color) : (colorText c).utf8ByteSize = 7 := by
+  have h : ∀ n, (hexD (n / 16 % 16)).utf8Size = 1 ∧ (hexD (n % 16)).utf8Size = 1 :=
+    fun n => ⟨hexD_ascii _ (Nat.mod_lt _ (by decide)), hexD_ascii _ (Nat.mod_lt _ (by decide))⟩
+  have h1 : ("#" : String).utf8ByteSize = 1 := by decide
+  simp [colorText, hex2_eq, String.utf8ByteSize_append, h, h1]
+
+theorem colorText_starts (c : Color) : (colorText c).startsWith "#" = true := by
+  simp [colorText]
+
+theorem hexD_ne_hash : ∀ k, k < 16 → decide (hexD k = '#') = false ∧ hexD k ≠ '+' := by decide
+
+def ColorOk (c : Color) : Prop := c.r < 256 ∧ c.g < 256 ∧ c.b < 256
+
+theorem color_roundtrip (c : Color) (h : ColorOk c) : parseColor (colorText c) = some c := by
+  obtain ⟨r, g, b⟩ := c
+  obtain ⟨hr, hg, hb⟩ := h
+  simp only at hr hg hb
+  unfold parseColor
+  simp only [colorText_starts, colorText_size, Bool.not_true, bne_self_eq_false, Bool.or_false, Bool.false_eq_true, if_false,
+    colorText_toList]
+  have m : ∀ n, n / 16 % 16 < 16 ∧ n % 16 < 16 := fun n => ⟨Nat.mod_lt _ (by decide), Nat.mod_lt _ (by decide)⟩
+  have hd : List.dropWhile (fun x => decide (x = '#')) ['#', hexD (r / 16 % 16), hexD (r % 16), hexD (g / 16 % 16), hexD (g % 16), hexD (b / 16 % 16), hexD (b % 16)]
+      = [hexD (r / 16 % 16), hexD (r % 16), hexD (g / 16 % 16), hexD (g % 16), hexD (b / 16 % 16), hexD (b % 16)] := by
+    have := (hexD_ne_hash _ (m r).1).1
+    simp [List.dropWhile, this]
+  rw [hd]
+  have hp : hexD (r / 16 % 16) ≠ '+' := (hexD_ne_hash _ (m r).1).2
+  have hv : List.mapM hexVal [hexD (r / 16 % 16), hexD (r % 16), hexD (g / 16 % 16), hexD (g % 16), hexD (b / 16 % 16), hexD (b % 16)]
+      = some [r / 16 % 16, r % 16, g / 16 % 16, g % 16, b / 16 % 16, b % 16] := by
+    simp only [List.mapM_cons, List.mapM_nil, hexVal_hexD _ (m r).1, hexVal_hexD _ (m r).2, hexVal_hexD _ (m g).1,
+      hexVal_hexD _ (m g).2, hexVal_hexD _ (m b).1, hexVal_hexD _ (m b).2, Option.pure_def, Option.bind_eq_bind, Option.bind_some]
+  split
+  · rename_i r' heq; simp at heq; exact absurd heq.1 hp
+  · simp only [List.isEmpty_cons, Bool.false_eq_true, if_false, hv, List.foldl_cons, List.foldl_nil]
+    congr 1
+    congr 1 <;> omega
+
+
+theorem plain_hexD : ∀ k, k < 16 → plainChar (hexD k) = true := by decide
+
+theorem plain_color (c : Color) : ∀ ch ∈ (colorText c).toList, plainChar ch = true := by
+  rw [colorText_toList]
+  have m : ∀ n, n / 16 % 16 < 16 ∧ n % 16 < 16 := fun n => ⟨Nat.mod_lt _ (by decide), Nat.mod_lt _ (by decide)⟩
+  intro ch hch
+  simp only [List.mem_cons, List.not_mem_nil, or_false] at hch
+  rcases hch with h | h | h | h | h | h | h <;> subst h
+  · decide
+  · exact plain_hexD _ (m c.r).1
+  · exact plain_hexD _ (m c.r).2
+  · exact plain_hexD _ (m c.g).1
+  · exact plain_hexD _ (m c.g).2
+  · exact plain_hexD _ (m c.b).1
+  · exact plain_hexD _ (m c.b).2
+
+theorem xmlText_color (c : Color) : XmlText (colorText c) := xmlText_of_plain _ (plain_color c)
+theorem txt_color (c : Color) : txt (colorText c) = [.chars (colorText c)] :=
+  txt_of_plain _ (by rw [colorText_toList]; simp) (plain_color c)
+
+theorem parses_color (c : Color) (h : ColorOk c) : Parses .color (colorText c) (.color c) := by
+  intro st; simp only [fromChars, color_roundtrip c h]; rfl
+
+theorem reads_tagOpt_color (n : String) (c : Color) (off : Nat) (h : ColorOk c) :
+    Reads (tagOpt .color) (el n (txt (colorText c))) off (some (.color c)) off := by
+  rw [txt_color]; exact reads_tagOpt_some .color n _ _ off (parses_color c h)
+
+
+/-! ### tags -/
+
+theorem splitOnP_ne_nil (p : Char → Bool) (l : List Char) : splitOnP p l ≠ [] := by
+  induction l with
+  | nil => simp [splitOnP]
+  | cons c cs ih =>
+    unfold splitOnP
+    cases h : splitOnP p cs with
+    | nil => simp
+    | cons a b => by_cases hp : p c = true <;> simp [hp]
+
+theorem splitOnP_noSep (p : Char → Bool) (l : List Char) (h : ∀ c ∈ l, p c = false) : splitOnP p l = [l] := by
+  induction l with
+  | nil => rfl
+  | cons c cs ih =>
+    unfold splitOnP
+    rw [ih (fun x hx => h x (List.mem_cons_of_mem _ hx))]
+    simp [h c List.mem_cons_self]
+
+theorem splitOnP_append_sep (p : Char → Bool) (t rest : List Char) (s : Char) (ht : ∀ c ∈ t, p c = false) (hs : p s = true) :
+    splitOnP p (t ++ s :: rest) = t :: splitOnP p rest := by
+  induction t with
+  | nil =>
+    simp only [List.nil_append]
+    conv => lhs; unfold splitOnP
+    cases h : splitOnP p rest with
+    | nil => exact absurd h (splitOnP_ne_nil p rest)
+    | cons a b => simp [hs]
+  | cons c cs ih =>
+    simp only [List.cons_append]
+    conv => lhs; unfold splitOnP
+    rw [ih (fun x hx => ht x (List.mem_cons_of_mem _ hx))]
+    simp [ht c List.mem_cons_self]
+
+def isTagSep (c : Char) : Bool := c == ';' || c == ','
+
+theorem splitOnP_intercalate (l : List (List Char)) (hne : l ≠ []) (h : ∀ t ∈ l, ∀ c ∈ t, isTagSep c = false) :
+    splitOnP isTagSep ([';'].intercalate l) = l := by
+  induction l with
+  | nil => exact absurd rfl hne
+  | cons t l ih =>
+    cases l with
+    | nil =>
+      simp only [List.intercalate, List.intersperse, List.flatten_cons, List.flatten_nil, List.append_nil]
+      exact splitOnP_noSep _ _ (h t List.mem_cons_self)
+    | cons t2 l2 =>
+      have e : [';'].intercalate (t :: t2 :: l2) = t ++ ';' :: [';'].intercalate (t2 :: l2) := by
+        simp [List.intercalate, List.intersperse]
+      rw [e, splitOnP_append_sep _ _ _ _ (h t List.mem_cons_self) (by decide)]
+      rw [ih (by simp) (fun x hx => h x (List.mem_cons_of_mem _ hx))]
+
+theorem splitTags_intercalate (tags : List String) (hne : tags ≠ [])
+    (h : ∀ t ∈ tags, ∀ c ∈ t.toList, isTagSep c = false) : splitTags (";".intercalate tags) = tags := by
+  unfold splitTags
+  rw [String.toList_intercalate]
+  have e : (fun c => c == ';' || c == ',') = isTagSep := rfl
+  rw [e]
+  have : (";" : String).toList = [';'] := rfl
+  rw [this, splitOnP_intercalate _ (by simpa using hne) (by
+    intro t ht c hc
+    obtain ⟨s, hs, rfl⟩ := List.mem_map.mp ht
+    exact h s hs c hc)]
+  simp [List.map_map]
+
+
+/-- tags: none, or a list whose `;`-joined text is not blank and whose items contain no separator -/
+def TagsOk (tags : List String) : Prop :=
+  tags = [] ∨ (NonBlank (";".intercalate tags) ∧ ∀ t ∈ tags, ∀ c ∈ t.toList, isTagSep c = false)
+
+theorem TagsOk.xmlText {tags : List String} (h : TagsOk tags) : XmlText (";".intercalate tags) := by
+  rcases h with h | h
+  · subst h; decide
+  · exact h.1.1
+
 /-! ### `Entry` -/
 
 def entryDispatch (env : Env) (fuel : Nat) : String → EntryAcc → Option (P EntryAcc) := fun name acc =>
@@ -1410,6 +1565,12 @@ theorem entryDispatch_CustomIconUUID (env : Env) (fuel : Nat) (acc : EntryAcc) :
     entryDispatch env fuel "CustomIconUUID" acc
       = some (do pure { acc with customIconUuid := (← tagOpt .uuid).map Scalar.toUuid }) := by
   simp [entryDispatch]
+theorem entryDispatch_ForegroundColor (env : Env) (fuel : Nat) (acc : EntryAcc) :
+    entryDispatch env fuel "ForegroundColor" acc = some (do pure { acc with fg := (← tagOpt .color).map Scalar.toColor }) := by
+  simp [entryDispatch]
+theorem entryDispatch_BackgroundColor (env : Env) (fuel : Nat) (acc : EntryAcc) :
+    entryDispatch env fuel "BackgroundColor" acc = some (do pure { acc with bg := (← tagOpt .color).map Scalar.toColor }) := by
+  simp [entryDispatch]
 theorem entryDispatch_OverrideURL (env : Env) (fuel : Nat) (acc : EntryAcc) :
     entryDispatch env fuel "OverrideURL" acc
       = some (do pure { acc with overrideUrl := (← tagOpt .text).map Scalar.str }) := by
@@ -1470,41 +1631,44 @@ def HistRT (denv : DEnv) (u : Bytes → Option String) (penv : Env) (fd B : Nat)
     HistEq history h' ∧ 2 * histDepth history ≤ evs.length
 
 /-- the events of an `<Entry>` element, given those of its `<History>` part -/
-def evEntryWith (ks : Nat → Nat → Bytes) (off : Nat) (uuid : Bytes) (lf : List (String × Value))
+def evEntryWith (ks : Nat → Nat → Bytes) (off : Nat) (uuid : Bytes) (tags : List String) (lf : List (String × Value))
     (lcd : List (String × CustomDataItem)) (autotype : Option AutoType) (lt : List (String × Int)) (times : Times)
-    (iconId : Option Nat) (ciu : Option Bytes) (ourl : Option String) (qc : Option Bool) (evsH : List Ev) : List Ev :=
-  [.start "Entry" []] ++ (el "UUID" (txt (b64Text uuid)) ++ (el "Tags" (txt "") ++ ([] ++ ((evFields ks off lf).1 ++
+    (iconId : Option Nat) (ciu : Option Bytes) (fg bg : Option Color) (ourl : Option String) (qc : Option Bool) (evsH : List Ev) : List Ev :=
+  [.start "Entry" []] ++ (el "UUID" (txt (b64Text uuid)) ++ (el "Tags" (txt (";".intercalate tags)) ++ ([] ++ ((evFields ks off lf).1 ++
     ((evCustomData ks (evFields ks off lf).2 lcd).1 ++ (optList evAutoType autotype ++ (evTimes lt times ++
     (evOpt "IconID" (fun (n : Nat) => toString n) iconId ++ (evOpt "CustomIconUUID" b64Text ciu ++
-    (evOpt "ForegroundColor" colorText none ++ (evOpt "BackgroundColor" colorText none ++
+    (evOpt "ForegroundColor" colorText fg ++ (evOpt "BackgroundColor" colorText bg ++
     (evOpt "OverrideURL" id ourl ++ (evOpt "QualityCheck" boolText qc ++ (evsH ++ ([.stop "Entry"] ++ [])))))))))))))))
 
 theorem entry_core (denv : DEnv) (u : Bytes → Option String) (penv : Env) (hks : ∀ o n, (penv.ks o n).length = n)
     (henv : denv.ks = penv.ks) (fd B : Nat)
-    (uuid : Bytes) (fields : List (String × Value)) (autotype : Option AutoType) (times : Times) (cd : CustomData)
-    (iconId : Option Nat) (ciu : Option Bytes) (ourl : Option String) (qc : Option Bool) (history : Option (List Entry))
-    (hu : uuid.length = 16) (hf : FieldsOk fields) (ha : ∀ x, autotype = some x → AutoTypeOk x) (ht : TimesOk times)
+    (uuid : Bytes) (fields : List (String × Value)) (autotype : Option AutoType) (tags : List String) (times : Times)
+    (cd : CustomData)
+    (iconId : Option Nat) (ciu : Option Bytes) (fg bg : Option Color) (ourl : Option String) (qc : Option Bool)
+    (history : Option (List Entry))
+    (hu : uuid.length = 16) (htags : TagsOk tags) (hf : FieldsOk fields) (ha : ∀ x, autotype = some x → AutoTypeOk x) (ht : TimesOk times)
     (hcd : CdOk cd) (hic : ∀ n, iconId = some n → n < 18446744073709551616) (hciu : ∀ b, ciu = some b → b.length = 16)
+    (hfg : ∀ c, fg = some c → ColorOk c) (hbg : ∀ c, bg = some c → ColorOk c)
     (hou : OptNonBlank ourl) (hH : HistRT denv u penv fd B history)
     (stk : List String) (off : Nat) (ords : Ords) :
     ∃ evs off' ords' h',
-      Dumps (dumpEntry denv u (fd + 1) (.mk uuid fields autotype [] times cd iconId ciu none none ourl qc history))
+      Dumps (dumpEntry denv u (fd + 1) (.mk uuid fields autotype tags times cd iconId ciu fg bg ourl qc history))
         stk off ords true evs stk off' ords' ∧
       (∀ fp, B ≤ fp → Reads (parseEntry penv (fp + 1)) evs off
-        (.mk uuid (insertAll [] (ordered ords fields)) autotype []
+        (.mk uuid (insertAll [] (ordered ords fields)) autotype tags
           ⟨times.expires, times.usageCount, insertAll [] (ordered ords.tail.tail times.times)⟩
-          (insertAll [] (ordered ords.tail cd)) iconId ciu none none ourl qc h') off') ∧
+          (insertAll [] (ordered ords.tail cd)) iconId ciu fg bg ourl qc h') off') ∧
       HistEq history h' ∧ (∃ attrs tl, evs = .start "Entry" attrs :: tl) ∧ 2 * (1 + histDepth history) ≤ evs.length := by
   obtain ⟨evsH, offH, ordsH, h', hHd, hHr, hHe, hHl⟩ := hH ("Entry" :: stk)
     (evCustomData denv.ks (evFields denv.ks off (ordered ords fields)).2 (ordered ords.tail cd)).2 ords.tail.tail.tail true
-  refine ⟨evEntryWith denv.ks off uuid (ordered ords fields) (ordered ords.tail cd) autotype
-    (ordered ords.tail.tail times.times) times iconId ciu ourl qc evsH, offH, ordsH, h', ?dumps, ?reads, hHe, ⟨[], _, rfl⟩, ?len⟩
+  refine ⟨evEntryWith denv.ks off uuid tags (ordered ords fields) (ordered ords.tail cd) autotype
+    (ordered ords.tail.tail times.times) times iconId ciu fg bg ourl qc evsH, offH, ordsH, h', ?dumps, ?reads, hHe, ⟨[], _, rfl⟩, ?len⟩
   case dumps =>
     rw [dumpEntry_eq]
     unfold evEntryWith
     refine Dumps.bind (Dumps.emit_start "Entry" [] stk off ords (by decide) rfl) ?_
     refine Dumps.bind (Dumps.tagRaw "UUID" (b64Text uuid) _ off ords (by decide) (xmlText_b64 _)) ?_
-    refine Dumps.bind (Dumps.tagText "Tags" "" _ off ords (by decide) (by decide)) ?_
+    refine Dumps.bind (Dumps.tagText "Tags" (";".intercalate tags) _ off ords (by decide) htags.xmlText) ?_
     refine Dumps.bind (Dumps.orderMap fields _ off ords) ?_
     refine Dumps.bind (dumps_fields denv u _ _ _ off true (fun p hp => ⟨(hf p (mem_ordered _ _ p hp)).1.1, (hf p (mem_ordered _ _ p hp)).2.1⟩)) ?_
     refine Dumps.bind (dumps_customData denv u cd _ _ _ (fun p hp => hcd p (mem_ordered _ _ p hp))) ?_
@@ -1512,8 +1676,8 @@ theorem entry_core (denv : DEnv) (u : Bytes → Option String) (penv : Env) (hks
     refine Dumps.bind (dumps_times times _ _ _ (fun p hp => (ht.2 p (mem_ordered _ _ p hp)).1)) ?_
     refine Dumps.bind (Dumps.optTag "IconID" (fun (n : Nat) => toString n) true iconId _ _ _ (by decide) (fun v _ => xmlText_nat v)) ?_
     refine Dumps.bind (Dumps.optTag "CustomIconUUID" b64Text true ciu _ _ _ (by decide) (fun v _ => xmlText_b64 v)) ?_
-    refine Dumps.bind (Dumps.optTag "ForegroundColor" colorText true none _ _ _ (by decide) (fun v hv => by cases hv)) ?_
-    refine Dumps.bind (Dumps.optTag "BackgroundColor" colorText true none _ _ _ (by decide) (fun v hv => by cases hv)) ?_
+    refine Dumps.bind (Dumps.optTag "ForegroundColor" colorText true fg _ _ _ (by decide) (fun v _ => xmlText_color v)) ?_
+    refine Dumps.bind (Dumps.optTag "BackgroundColor" colorText true bg _ _ _ (by decide) (fun v _ => xmlText_color v)) ?_
     refine Dumps.bind (Dumps.optTag "OverrideURL" id false ourl _ _ _ (by decide) (fun v hv => (hou v hv).1)) ?_
     refine Dumps.bind (Dumps.optTag "QualityCheck" boolText true qc _ _ _ (by decide) (fun v _ => xmlText_bool v)) ?_
     refine Dumps.bind hHd ?_
@@ -1524,34 +1688,49 @@ theorem entry_core (denv : DEnv) (u : Bytes → Option String) (penv : Env) (hks
   case reads =>
     intro fp hfp rest
     rw [parseEntry_eq]
+    have hHr' := hHr
+    rw [henv] at hHr'
     have key : LoopOk "Entry" (entryDispatch penv fp) skipUnknown
         ({ uuid := penv.freshUuid, times := timesNew penv.now } : EntryAcc)
-        ⟨(evEntryWith denv.ks off uuid (ordered ords fields) (ordered ords.tail cd) autotype
-          (ordered ords.tail.tail times.times) times iconId ciu ourl qc evsH).tail ++ rest, off⟩
-        (({ uuid := uuid, fields := insertAll [] (ordered ords fields), autotype := autotype, tags := [],
+        ⟨(evEntryWith denv.ks off uuid tags (ordered ords fields) (ordered ords.tail cd) autotype
+          (ordered ords.tail.tail times.times) times iconId ciu fg bg ourl qc evsH).tail ++ rest, off⟩
+        (({ uuid := uuid, fields := insertAll [] (ordered ords fields), autotype := autotype, tags := tags,
             times := ⟨times.expires, times.usageCount, insertAll [] (ordered ords.tail.tail times.times)⟩,
-            customData := insertAll [] (ordered ords.tail cd), iconId := iconId, customIconUuid := ciu,
+            customData := insertAll [] (ordered ords.tail cd), iconId := iconId, customIconUuid := ciu, fg := fg, bg := bg,
             overrideUrl := ourl, qualityCheck := qc, history := h' } : EntryAcc), ⟨rest, offH⟩) := by
       have hne : uuid ≠ [] := by intro e; rw [e] at hu; simp at hu
-      simp only [evEntryWith, List.cons_append, List.nil_append, List.tail_cons, List.append_assoc, txt_b64 _ hne, txt_empty,
+      simp only [evEntryWith, List.cons_append, List.nil_append, List.tail_cons, List.append_assoc, txt_b64 _ hne,
         henv, optList_none]
       refine LoopOk.child (acc' := { uuid := uuid, times := timesNew penv.now }) "UUID" [] [.chars (b64Text uuid), .stop "UUID"] _ off off _ (by rfl)
         (entryDispatch_UUID penv fp _) ((reads_tagReq .uuid "UUID" _ _ off (parses_uuid uuid hu)).andThen _) ?_
-      refine LoopOk.child (acc' := { uuid := uuid, times := timesNew penv.now }) "Tags" [] [.stop "Tags"] _ off off _ (by rfl)
+      refine LoopOk.childL (acc' := ({ uuid := uuid, times := timesNew penv.now, tags := tags } : EntryAcc)) "Tags" _ _ off off _ ⟨[], _, rfl⟩
         (entryDispatch_Tags penv fp _) ?_ ?_
       · intro rest'
-        have h0 : tagOpt .text ⟨[Ev.start "Tags" [], Ev.stop "Tags"] ++ rest', off⟩ = .ok (none, ⟨rest', off⟩) :=
-          reads_tagOpt_none .text "Tags" off rest'
-        rw [P_bind_ok _ _ _ _ _ h0]
-        rfl
+        rcases htags with ht0 | ht1
+        · subst ht0
+          have h0 : tagOpt .text ⟨el "Tags" (txt (";".intercalate [])) ++ rest', off⟩ = .ok (none, ⟨rest', off⟩) :=
+            reads_tagOpt_none .text "Tags" off rest'
+          rw [P_bind_ok _ _ _ _ _ h0]
+          rfl
+        · have hj : txt (";".intercalate tags) = [.chars (";".intercalate tags)] := txt_nonBlank ht1.1
+          have hne0 : tags ≠ [] := by
+            intro e; subst e
+            have := ht1.1.2
+            simp at this
+          have h0 : tagOpt .text ⟨el "Tags" (txt (";".intercalate tags)) ++ rest', off⟩
+              = .ok (some (.text (";".intercalate tags)), ⟨rest', off⟩) := by
+            rw [hj]; exact reads_tagOpt_some .text "Tags" _ _ off (parses_text _) rest'
+          rw [P_bind_ok _ _ _ _ _ h0]
+          simp only [Scalar.str, splitTags_intercalate tags hne0 ht1.2]
+          rfl
       refine entryLoop_fields penv fp hks (ordered ords fields) _ _ off _ (fun p hp => hf p (mem_ordered _ _ p hp)) ?_
-      refine LoopOk.childL (acc' := ({ uuid := uuid, times := timesNew penv.now, fields := insertAll [] (ordered ords fields), customData := insertAll [] (ordered ords.tail cd) } : EntryAcc)) "CustomData" _ _ _ _ _ ⟨[], _, rfl⟩
+      refine LoopOk.childL (acc' := ({ uuid := uuid, times := timesNew penv.now, tags := tags, fields := insertAll [] (ordered ords fields), customData := insertAll [] (ordered ords.tail cd) } : EntryAcc)) "CustomData" _ _ _ _ _ ⟨[], _, rfl⟩
         (entryDispatch_CustomData penv fp _)
         ((reads_customData penv (ordered ords.tail cd) _ (fun p hp => hcd p (mem_ordered _ _ p hp)) hks).andThen _) ?_
       refine LoopOk.optChild autotype _ (fun (acc : EntryAcc) x => { acc with autotype := x }) "AutoType" _ _ _ rfl
         (fun a => ⟨[], _, rfl⟩) (entryDispatch_AutoType penv fp _) ?_ ?_
       · exact fun a hx => (reads_autoType a _ (ha a hx)).andThen _
-      refine LoopOk.childL (acc' := ({ uuid := uuid, fields := insertAll [] (ordered ords fields), autotype := autotype, customData := insertAll [] (ordered ords.tail cd), times := ⟨times.expires, times.usageCount, insertAll [] (ordered ords.tail.tail times.times)⟩ } : EntryAcc)) "Times" _ _ _ _ _ ⟨[], _, rfl⟩
+      refine LoopOk.childL (acc' := ({ uuid := uuid, tags := tags, fields := insertAll [] (ordered ords fields), autotype := autotype, customData := insertAll [] (ordered ords.tail cd), times := ⟨times.expires, times.usageCount, insertAll [] (ordered ords.tail.tail times.times)⟩ } : EntryAcc)) "Times" _ _ _ _ _ ⟨[], _, rfl⟩
         (entryDispatch_Times penv fp _)
         ((reads_times (ordered ords.tail.tail times.times) times _ (fun p hp => (ht.2 p (mem_ordered _ _ p hp)).2) ht.1).andThen _) ?_
       refine LoopOk.optChild iconId _ (fun (acc : EntryAcc) x => { acc with iconId := x }) "IconID" _ _ _ rfl
@@ -1567,6 +1746,12 @@ theorem entry_core (denv : DEnv) (u : Bytes → Option String) (penv : Env) (hks
         have : Reads (tagOpt .uuid) (el "CustomIconUUID" (txt (b64Text b))) (evCustomData penv.ks (evFields penv.ks off (ordered ords fields)).2 (ordered ords.tail cd)).2 (some (.uuid b)) (evCustomData penv.ks (evFields penv.ks off (ordered ords fields)).2 (ordered ords.tail cd)).2 := by
           rw [txt_b64 _ hne']; exact reads_tagOpt_some .uuid "CustomIconUUID" _ _ _ (parses_uuid b (hciu b hb))
         exact this.andThen _
+      refine LoopOk.optChild fg _ (fun (acc : EntryAcc) x => { acc with fg := x }) "ForegroundColor" _ _ _ rfl
+        (fun a => ⟨[], _, rfl⟩) (entryDispatch_ForegroundColor penv fp _) ?_ ?_
+      · exact fun c hc => (reads_tagOpt_color "ForegroundColor" c _ (hfg c hc)).andThen _
+      refine LoopOk.optChild bg _ (fun (acc : EntryAcc) x => { acc with bg := x }) "BackgroundColor" _ _ _ rfl
+        (fun a => ⟨[], _, rfl⟩) (entryDispatch_BackgroundColor penv fp _) ?_ ?_
+      · exact fun c hc => (reads_tagOpt_color "BackgroundColor" c _ (hbg c hc)).andThen _
       refine LoopOk.optChild ourl _ (fun (acc : EntryAcc) x => { acc with overrideUrl := x }) "OverrideURL" _ _ _ rfl
         (fun a => ⟨[], _, rfl⟩) (entryDispatch_OverrideURL penv fp _) ?_ ?_
       · exact fun a hx => (reads_tagOpt_text "OverrideURL" a _ (hou a hx)).andThen _
@@ -1576,13 +1761,12 @@ theorem entry_core (denv : DEnv) (u : Bytes → Option String) (penv : Env) (hks
         have : Reads (tagOpt .bool) (el "QualityCheck" (txt (boolText b))) (evCustomData penv.ks (evFields penv.ks off (ordered ords fields)).2 (ordered ords.tail cd)).2 (some (.bool b)) (evCustomData penv.ks (evFields penv.ks off (ordered ords fields)).2 (ordered ords.tail cd)).2 := by
           rw [txt_bool]; exact reads_tagOpt_some .bool "QualityCheck" _ _ _ (parses_bool b)
         exact this.andThen _
-      rw [← henv]
-      refine hHr fp hfp _ _ _ rfl ?_
+      refine hHr' fp hfp _ _ _ rfl ?_
       exact LoopOk.stop _ _ _ _ _ _
-    have hx : evEntryWith denv.ks off uuid (ordered ords fields) (ordered ords.tail cd) autotype
-          (ordered ords.tail.tail times.times) times iconId ciu ourl qc evsH
-        = .start "Entry" [] :: (evEntryWith denv.ks off uuid (ordered ords fields) (ordered ords.tail cd) autotype
-          (ordered ords.tail.tail times.times) times iconId ciu ourl qc evsH).tail := rfl
+    have hx : evEntryWith denv.ks off uuid tags (ordered ords fields) (ordered ords.tail cd) autotype
+          (ordered ords.tail.tail times.times) times iconId ciu fg bg ourl qc evsH
+        = .start "Entry" [] :: (evEntryWith denv.ks off uuid tags (ordered ords fields) (ordered ords.tail cd) autotype
+          (ordered ords.tail.tail times.times) times iconId ciu fg bg ourl qc evsH).tail := rfl
     rw [hx]
     simp only [List.cons_append, bind, StateT.bind, expectStart, next, Outcome.bind, ite_true, pure, StateT.pure, fuelOf, get,
       getThe, MonadStateOf.get, StateT.get]
@@ -1591,15 +1775,18 @@ theorem entry_core (denv : DEnv) (u : Bytes → Option String) (penv : Env) (hks
 
 
 mutual
-  /-- the entries C03 speaks about (this version: no tags, no colours) -/
+  /-- the entries C03 speaks about -/
   inductive EntryOk : Entry → Prop where
-    | mk (uuid : Bytes) (fields : List (String × Value)) (autotype : Option AutoType) (times : Times) (cd : CustomData)
-        (iconId : Option Nat) (ciu : Option Bytes) (ourl : Option String) (qc : Option Bool) (history : Option (List Entry))
-        (hu : uuid.length = 16) (hf : FieldsOk fields) (hfn : KeysNodup fields) (ha : ∀ x, autotype = some x → AutoTypeOk x)
+    | mk (uuid : Bytes) (fields : List (String × Value)) (autotype : Option AutoType) (tags : List String) (times : Times)
+        (cd : CustomData)
+        (iconId : Option Nat) (ciu : Option Bytes) (fg bg : Option Color) (ourl : Option String) (qc : Option Bool)
+        (history : Option (List Entry))
+        (hu : uuid.length = 16) (htags : TagsOk tags) (hf : FieldsOk fields) (hfn : KeysNodup fields) (ha : ∀ x, autotype = some x → AutoTypeOk x)
         (ht : TimesOk times) (htn : KeysNodup times.times) (hcd : CdOk cd) (hcdn : KeysNodup cd)
         (hic : ∀ n, iconId = some n → n < 18446744073709551616) (hciu : ∀ b, ciu = some b → b.length = 16)
+        (hfg : ∀ c, fg = some c → ColorOk c) (hbg : ∀ c, bg = some c → ColorOk c)
         (hou : OptNonBlank ourl) (hh : HistOk history) :
-        EntryOk (.mk uuid fields autotype [] times cd iconId ciu none none ourl qc history)
+        EntryOk (.mk uuid fields autotype tags times cd iconId ciu fg bg ourl qc history)
   inductive HistOk : Option (List Entry) → Prop where
     | none : HistOk none
     | some (l : List Entry) (h : EntriesOk l) : HistOk (some l)
@@ -1733,7 +1920,7 @@ theorem entry_rt (denv : DEnv) (u : Bytes → Option String) (penv : Env) (hks :
   | succ n ih =>
     intro e hd hok fd hfd
     cases hok with
-    | mk uuid fields autotype times cd iconId ciu ourl qc history hu hf hfn ha ht htn hcd hcdn hic hciu hou hh =>
+    | mk uuid fields autotype tags times cd iconId ciu fg bg ourl qc history hu htags hf hfn ha ht htn hcd hcdn hic hciu hfg hbg hou hh =>
       obtain ⟨fd', rfl⟩ : ∃ k, fd = k + 1 := ⟨fd - 1, by omega⟩
       have hH : HistRT denv u penv fd' (2 * n + 1) history := by
         cases history with
@@ -1749,14 +1936,14 @@ theorem entry_rt (denv : DEnv) (u : Bytes → Option String) (penv : Env) (hks :
           | some _ hl => exact ih x hdx (entriesOk_mem l hl x hx) fd' (by omega)
       intro stk off ords
       obtain ⟨evs, off', ords', h', hdmp, hrd, hhe, hst, hlen⟩ := entry_core denv u penv hks henv fd' (2 * n + 1) uuid fields
-        autotype times cd iconId ciu ourl qc history hu hf ha ht hcd hic hciu hou hH stk off ords
-      refine ⟨evs, off', ords', (.mk uuid (insertAll [] (ordered ords fields)) autotype []
+        autotype tags times cd iconId ciu fg bg ourl qc history hu htags hf ha ht hcd hic hciu hfg hbg hou hH stk off ords
+      refine ⟨evs, off', ords', (.mk uuid (insertAll [] (ordered ords fields)) autotype tags
           ⟨times.expires, times.usageCount, insertAll [] (ordered ords.tail.tail times.times)⟩
-          (insertAll [] (ordered ords.tail cd)) iconId ciu none none ourl qc h'), hdmp, ?_, ?_, hst, ?_⟩
+          (insertAll [] (ordered ords.tail cd)) iconId ciu fg bg ourl qc h'), hdmp, ?_, ?_, hst, ?_⟩
       · intro fp hfp
         obtain ⟨fp', rfl⟩ : ∃ k, fp = k + 1 := ⟨fp - 1, by omega⟩
         exact hrd fp' (by omega)
-      · exact EntryEq.mk uuid fields _ autotype [] times _ cd _ iconId ciu none none ourl qc history h'
+      · exact EntryEq.mk uuid fields _ autotype tags times _ cd _ iconId ciu fg bg ourl qc history h'
           (lookup_insertAll_ordered ords fields hfn)
           ⟨rfl, rfl, lookup_insertAll_ordered _ times.times htn⟩
           (lookup_insertAll_ordered _ cd hcdn) hhe
@@ -2786,7 +2973,7 @@ structure MetaOk (gz : Bytes → Bytes) (m : Meta) : Prop where
   defaultUsername : OptNonBlank m.defaultUsername
   defaultUsernameChanged : OptAll TimeOk m.defaultUsernameChanged
   maintenanceHistoryDays : OptAll UsizeOk m.maintenanceHistoryDays
-  color : m.color = none
+  color : OptAll ColorOk m.color
   masterKeyChanged : OptAll TimeOk m.masterKeyChanged
   masterKeyChangeRec : OptAll IsizeOk m.masterKeyChangeRec
   masterKeyChangeForce : OptAll IsizeOk m.masterKeyChangeForce
@@ -2813,7 +3000,7 @@ def evMeta (ks : Nat → Nat → Bytes) (gz : Bytes → Bytes) (off : Nat) (m : 
     (evOpt "DefaultUserName" id m.defaultUsername ++
     (evOpt "DefaultUserNameChanged" formatTimestamp m.defaultUsernameChanged ++
     (evOpt "MaintenanceHistoryDays" (fun (n : Nat) => toString n) m.maintenanceHistoryDays ++
-    (evOpt "Color" colorText (none : Option Color) ++
+    (evOpt "Color" colorText m.color ++
     (evOpt "MasterKeyChanged" formatTimestamp m.masterKeyChanged ++
     (evOpt "MasterKeyChangeRec" intText m.masterKeyChangeRec ++
     (evOpt "MasterKeyChangeForce" intText m.masterKeyChangeForce ++
@@ -2851,8 +3038,7 @@ theorem meta_core (denv : DEnv) (u : Bytes → Option String) (penv : Env) (hks 
     refine Dumps.bind (Dumps.optTag "DefaultUserName" id false m.defaultUsername _ _ _ (by decide) (fun v hv => (hok.defaultUsername v hv).1)) ?_
     refine Dumps.bind (Dumps.optTag "DefaultUserNameChanged" formatTimestamp true m.defaultUsernameChanged _ _ _ (by decide) (fun v _ => xmlText_b64 _)) ?_
     refine Dumps.bind (Dumps.optTag "MaintenanceHistoryDays" (fun (n : Nat) => toString n) true m.maintenanceHistoryDays _ _ _ (by decide) (fun v _ => xmlText_nat v)) ?_
-    rw [hok.color]
-    refine Dumps.bind (Dumps.optTag "Color" colorText true none _ _ _ (by decide) (fun v hv => by cases hv)) ?_
+    refine Dumps.bind (Dumps.optTag "Color" colorText true m.color _ _ _ (by decide) (fun v _ => xmlText_color v)) ?_
     refine Dumps.bind (Dumps.optTag "MasterKeyChanged" formatTimestamp true m.masterKeyChanged _ _ _ (by decide) (fun v _ => xmlText_b64 _)) ?_
     refine Dumps.bind (Dumps.optTag "MasterKeyChangeRec" intText true m.masterKeyChangeRec _ _ _ (by decide) (fun v _ => xmlText_int v)) ?_
     refine Dumps.bind (Dumps.optTag "MasterKeyChangeForce" intText true m.masterKeyChangeForce _ _ _ (by decide) (fun v _ => xmlText_int v)) ?_
@@ -2878,10 +3064,8 @@ theorem meta_core (denv : DEnv) (u : Bytes → Option String) (penv : Env) (hks 
         ⟨(evMeta denv.ks denv.gzip off m (ordered ords m.customData)).tail ++ rest, off⟩
         (({ m with customData := insertAll [] (ordered ords m.customData) } : Meta),
           ⟨rest, (evCustomData denv.ks off (ordered ords m.customData)).2⟩) := by
-      have hcol := hok.color
       obtain ⟨generator, databaseName, databaseNameChanged, databaseDescription, databaseDescriptionChanged, defaultUsername, defaultUsernameChanged, maintenanceHistoryDays, color, masterKeyChanged, masterKeyChangeRec, masterKeyChangeForce, memoryProtection, customIcons, recyclebinEnabled, recyclebinUuid, recyclebinChanged, entryTemplatesGroup, entryTemplatesGroupChanged, lastSelectedGroup, lastTopVisibleGroup, historyMaxItems, historyMaxSize, settingsChanged, binaries, customData⟩ := m
-      simp only at hcol hok ⊢
-      subst hcol
+      simp only at hok ⊢
       simp only [evMeta, List.cons_append, List.nil_append, List.tail_cons, List.append_assoc, henv, optList_none]
       refine LoopOk.optChild generator _ (fun (acc : Meta) x => { acc with generator := x }) "Generator" _ _ _ rfl
         (fun a => ⟨[], _, rfl⟩) (metaDispatch_Generator penv _) ?_ ?_
@@ -2907,6 +3091,9 @@ theorem meta_core (denv : DEnv) (u : Bytes → Option String) (penv : Env) (hks 
       refine LoopOk.optChild maintenanceHistoryDays _ (fun (acc : Meta) x => { acc with maintenanceHistoryDays := x }) "MaintenanceHistoryDays" _ _ _ rfl
         (fun a => ⟨[], _, rfl⟩) (metaDispatch_MaintenanceHistoryDays penv _) ?_ ?_
       · exact fun a hx => ((reads_optUsize "MaintenanceHistoryDays" a _ (hok.maintenanceHistoryDays a hx))).andThen _
+      refine LoopOk.optChild color _ (fun (acc : Meta) x => { acc with color := x }) "Color" _ _ _ rfl
+        (fun a => ⟨[], _, rfl⟩) (metaDispatch_Color penv _) ?_ ?_
+      · exact fun c hc => (reads_tagOpt_color "Color" c _ (hok.color c hc)).andThen _
       refine LoopOk.optChild masterKeyChanged _ (fun (acc : Meta) x => { acc with masterKeyChanged := x }) "MasterKeyChanged" _ _ _ rfl
         (fun a => ⟨[], _, rfl⟩) (metaDispatch_MasterKeyChanged penv _) ?_ ?_
       · exact fun a hx => ((reads_optTime "MasterKeyChanged" a _ (hok.masterKeyChanged a hx))).andThen _
